@@ -644,7 +644,13 @@ def run(ctx):
     n_ok, rej = validate(ctx, matching, "sampled matching replays")
     for rj in rej:   # cannot happen unless Impl =/=> Contract within bounds or the driver's comparison is broken
         report(ctx, rj, live, "matching-replay-rejected")
-    n_ok2, rej2 = validate(ctx, mism, "mismatching replays")
+    # first a slice of the mismatching replays: one rejection is a verdict; only if all of those are accepted (drift) the rest
+    n_ok2, rej2 = validate(ctx, mism[:1500], "mismatching replays")
+    if not rej2 and len(mism) > 1500:
+        n_ok3, rej2 = validate(ctx, mism[1500:], "mismatching replays (rest)")
+        n_ok2 += n_ok3
+    elif rej2:
+        mism = mism[:1500]
     for rj in rej2:
         report(ctx, rj, live, "contract-rejects")
     accepted_mismatch = len(mism) - len(rej2)
